@@ -692,8 +692,16 @@ def check_multifile(run: common.Run, drv: common.Driver, rng: random.Random, n: 
             except Exception as e:
                 # acceptance and importability of generated modules are C08's / C10's subject; a program the generator
                 # got wrong (e.g. an import name that is already taken) must not raise an alarm here
-                run.count("multifile_skipped:" + type(e).__name__)
-                run.notes.setdefault("multifile_skipped", []).append(str(e)[:200])
+                # ... which the reference decides (Run.violation asks text.check about the whole program): a program the
+                # reference accepts must compile to Python modules that import
+                texts = G.program_files(main, None)
+                before = len(run.violations)
+                run.violation({"kind": "compile-failed", "input": {"files": texts, "main": f"{main.base()}.bitproto"},
+                               "observed_impl": f"{type(e).__name__}: {str(e)[:300]}",
+                               "expected_by_spec": "a valid program compiles to Python modules that import each other"})
+                if len(run.violations) == before:
+                    run.count("multifile_skipped:" + type(e).__name__)
+                    run.notes.setdefault("multifile_skipped", []).append(str(e)[:200])
                 continue
             try:
                 jobs = []
